@@ -110,16 +110,21 @@ GRestartCrash ==        \* the recovering process dies after Engine.cleanup, bef
 GBatches == {b \in Batches : Cardinality(b) = 1 \/ \E p, q \in b : p # q /\ (p[1] = q[1] \/ p[2] = q[2])}
 
 GInit == Init /\ hist = <<>>
+\* Simulation picks uniformly among successor STATES, so a step kind with many argument values would
+\* crowd out the others: arguments are drawn at random here (one or two per step kind and step).
+Pick1(S) == {RandomElement(S)}
+Pick2(S) == {RandomElement(S), RandomElement(S)}
+DelArgs == {d \in Sels \X Times \X Times \X BOOLEAN : d[2] <= d[3]}
 GNext ==
   /\ Len(hist) < GenLen
-  /\ \/ \E b \in GBatches : GWrite(b)
+  /\ \/ \E b \in Pick2(GBatches) : GWrite(b)
      \/ GSnapshot \/ GSnapBegin \/ GSnapEnd \/ GCompact \/ GReopen
-     \/ \E S \in Sels, lo \in Times, hi \in Times, open \in BOOLEAN : lo <= hi /\ GDelete(S, lo, hi, open)
+     \/ \E d \in Pick2(DelArgs) : GDelete(d[1], d[2], d[3], d[4])
      \/ GCrashIdle
-     \/ \E b \in GBatches, how \in {"lost", "torn", "full"} : GCrashWrite(b, how)
+     \/ \E b \in Pick1(GBatches), how \in {"lost", "torn", "full"} : GCrashWrite(b, how)
      \/ \E stage \in {"taken", "tmp", "renamed", "cleared", "walremoved"} : GCrashSnap(stage)
      \/ \E stage \in {"tmp", "renamed", "removed1", "synced"} : GCrashComp(stage)
-     \/ \E S \in Sels, lo \in Times, hi \in Times, stage \in {"tombstoned", "cache", "wal"} : lo <= hi /\ GCrashDel(S, lo, hi, stage)
+     \/ \E d \in Pick2(DelArgs), stage \in {"tombstoned", "cache", "wal"} : GCrashDel(d[1], d[2], d[3], stage)
      \/ GRestart \/ GRestartCrash
 GSpec == GInit /\ [][GNext]_gvars
 
